@@ -63,7 +63,7 @@ theorem mem_queued_cancelBatches (p : Batch → Bool) (s : State) (tx : Tx) :
     · exact Or.inr h
 
 theorem queued_cleanup (z : State) : queued (cleanupCalls (cleanupBatches z)) = queued (cleanupBatches z) := by
-  obtain ⟨fm, hfm⟩ := cleanupCalls_core (cleanupBatches z)
+  obtain ⟨fm, er, hfm⟩ := cleanupCalls_core (cleanupBatches z)
   rw [hfm]
   unfold cleanupCallsCore
   obtain ⟨h1, h2, _⟩ := foldl_refundCall (expiredCalls (heightOf callCleanupSrc (cleanupBatches z)) (cleanupBatches z).calls)
